@@ -229,3 +229,19 @@ CHECKS['C15']['bounds']['quick'] += '; nested-callback profile (A registered wit
 # C04: besides the union alphabet, the source/retained-event profile (same oracle: ASan + both ledgers + zombie queries)
 CHECKS['C04']['parts'].append(world_part('sources', quick=[_w('C20', 2, 1, 3, 250)], thorough=[_w('C20', 2, 2, 5, 1500, 2)]))
 CHECKS['C04']['bounds']['quick'] += '; source/retained-event profile: depth 3, <=1 armed action'
+
+# C03: second part - blocking m_ctx_loop() vs m_ctx_dispatch() differential (in-process enumeration of programs)
+def _c03loop(steps, reacts, dl, shards=16):
+    return [['--steps', steps, '--reactions', reacts, '--deadline', dl, '--shard', '%d/%d' % (i, shards)] for i in range(shards)]
+
+
+CHECKS['C03']['parts'].append(dict(name='loopdiff', harness='c03_loop', sources=['harness/c03_loop.c', 'engine/shim.c'], libs=ALL_LIBS, variant='asan',
+                                   ldflags=[SHIM_WRAP], quick=_c03loop(4, 1, 150), thorough=_c03loop(5, 2, 1500)))
+CHECKS['C03']['bounds']['quick'] += '; loop-vs-dispatch differential: every program of <=4 environment/user steps (7 letters) x <=1 scripted handler reaction (24), both driving modes'
+CHECKS['C03']['bounds']['thorough'] += '; loop-vs-dispatch differential: <=5 steps x <=2 reactions'
+CHECKS['C03']['parallel'] = 16
+
+# C02: second part - the real pipe capacity (8192 pending messages), a deterministic run (not an enumeration)
+CHECKS['C02']['parts'].append(dict(name='capacity', harness='c02_flood', sources=['harness/c02_flood.c'], libs=ALL_LIBS, variant='asan', replayable=True,
+                                   quick=[[]], thorough=[[]]))
+CHECKS['C02']['bounds']['quick'] += '; capacity runs N in {1,100,8191,8192,8193,9000} x {plain,AUTOFREE} against the real pipe'
